@@ -173,6 +173,10 @@ func Run(ctx *common.Ctx) {
 	// cases for every seed. All choices below come from a second generator seeded by two (mixed) outputs of ctx.Rng.
 	rng := common.NewRng(ctx.Rng.Next() ^ (ctx.Rng.Next() >> 7))
 	g := &gen{r: rng, hist: ctx.Hist}
+	if os.Getenv("VERIF_C19_SESSDEBUG") != "" {
+		sessDebug(ctx, rng, 60, os.Getenv("VERIF_C19_SESSDEBUG") == "wild")
+		os.Exit(0)
+	}
 	nvalues := 600
 	if ctx.Thorough() {
 		nvalues = 8000
@@ -200,10 +204,80 @@ func Run(ctx *common.Ctx) {
 			ctx.Sample(d)
 		}
 	}
+	// ---- sessions -------------------------------------------------------------------------------
+	dir, err := os.MkdirTemp("", "verif-c19-")
+	if err != nil {
+		panic(err)
+	}
+	defer os.RemoveAll(dir)
+	base, err := mkBaseline(dir)
+	if err != nil {
+		panic(err)
+	}
+	ctx.Meta.Extra = map[string]any{"empty_session_snapshot_is_fixed_point": base.fixpoint, "empty_session_snapshot_loads": base.loadOK}
+	nmod, next := 140, 40
+	if ctx.Thorough() {
+		nmod, next = 1500, 400
+	}
+	for i := 0; i < nmod; i++ {
+		wild := i%2 == 1
+		forms, probes, wildText := genSession(rng, ctx.Hist, wild, true)
+		o, err := runSession(dir, 100+i, base, forms, probes, wild)
+		if err != nil {
+			ctx.Violate("the worker process failed on a session", forms, err.Error(), nil)
+			continue
+		}
+		o.WildText = wildText
+		for k, dres := range o.Define {
+			if strings.HasPrefix(dres, "!") {
+				o.Problems = append(o.Problems, "history form failed: "+forms[k]+" => "+dres)
+				o.WildText = true // not a session the model speaks about
+			}
+		}
+		term, ok := sessionTerm(o)
+		if !ok {
+			continue
+		}
+		if wild {
+			ctx.Hist("session:modelled-wild")
+		} else {
+			ctx.Hist("session:modelled-tame")
+		}
+		ctx.Meta.Evaluations++
+		distinct[strings.Join(forms, " ")] = true
+		terms = append(terms, term)
+		descs = append(descs, o)
+		if i%41 == 2 {
+			ctx.Sample(o)
+		}
+	}
+	// sessions with the kinds of definition the Coq model does not cover (packages, flavors, generic functions):
+	// generated inside the region where the unchanged code restores them; judged here, on the implementation alone
+	for i := 0; i < next; i++ {
+		forms, probes, _ := genSession(rng, ctx.Hist, false, false)
+		o, err := runSession(dir, 5000+i, base, forms, probes, false)
+		if err != nil {
+			ctx.Violate("the worker process failed on a session", forms, err.Error(), nil)
+			continue
+		}
+		ctx.Hist("session:extended-tame")
+		ctx.Meta.Evaluations++
+		distinct[strings.Join(forms, " ")] = true
+		bad := len(o.Problems) > 0
+		for k, dres := range o.Define {
+			if strings.HasPrefix(dres, "!") {
+				bad = true
+				o.Problems = append(o.Problems, "history form failed: "+forms[k]+" => "+dres)
+			}
+		}
+		if bad {
+			ctx.Violate("a session of definitions inside the guard is not restored by its snapshot", o.Forms, o, "same text, same behaviour")
+		}
+	}
 	ctx.Meta.DistinctNontrivial = len(distinct)
 	ctx.Meta.Rule = "placeholder"
 	header := "From Coq Require Import List String ZArith NArith Bool.\nImport ListNotations.\nFrom C19 Require Import Model Spec Corr.\n"
-	footer := "Definition res := Eval vm_compute in check_all cases.\nPrint res.\nDefinition farquote := Eval vm_compute in far_quote_count cases.\nPrint farquote.\nDefinition gcount := Eval vm_compute in guard_count cases.\nPrint gcount.\nDefinition unmodelled := Eval vm_compute in unmodelled_count cases.\nPrint unmodelled.\n"
+	footer := "Definition res := Eval vm_compute in check_all cases.\nPrint res.\nDefinition farquote := Eval vm_compute in far_quote_count cases.\nPrint farquote.\nDefinition sessions := Eval vm_compute in session_count cases.\nPrint sessions.\nDefinition sessions_skipped := Eval vm_compute in session_skipped cases.\nPrint sessions_skipped.\nDefinition gcount := Eval vm_compute in guard_count cases.\nPrint gcount.\nDefinition unmodelled := Eval vm_compute in unmodelled_count cases.\nPrint unmodelled.\n"
 	ctx.WriteShards("cases", header, "case", footer, terms, descs, 16)
 	ctx.ReplayKnownLisp()
 }
